@@ -89,7 +89,18 @@ func runPathSession(name []byte, up int, rpath []B) pathEvent {
 		return buildFrame(hdrSpec{id: id, serial: ser, phone: phone, body: body})
 	}
 	r := newRand(19)
-	units := [][]byte{ctl(0x1210, body1210("JS", r, []aFile{{name, content}})), ctl(0x1211, body1211(name, 0, 3))}
+	first := body1210("JS", r, []aFile{{name, content}})
+	// the same text in every peer-chosen text field of the announcement: terminal id (7 bytes), the alarm sign's terminal id
+	// (7 bytes) and the 32-byte alarm id - none of them may steer where files go
+	copy(first[0:7], pad(name, 7))
+	copy(first[7:14], pad(name, 7))
+	copy(first[23:55], pad(name, 32))
+	units := [][]byte{ctl(0x1210, first)}
+	if up%2 == 1 || len(name)%3 == 0 {
+		// a second announcement on the same connection, with an ordinary name (whatever was noted for the first stays in force)
+		units = append(units, ctl(0x1210, body1210("JS", r, []aFile{{[]byte("second.bin"), []byte{1, 2}}})))
+	}
+	units = append(units, ctl(0x1211, body1211(name, 0, 3)))
 	if len(name) <= 50 && len(name) > 0 && name[0] != 0 && name[len(name)-1] != 0 {
 		units = append(units, chunkBytes("JS", name, 0, content))
 		ev.Uploaded = true
@@ -116,6 +127,12 @@ func runPathSession(name []byte, up int, rpath []B) pathEvent {
 		ev.Stored = true
 	}
 	return ev
+}
+
+func pad(b []byte, n int) []byte {
+	out := make([]byte, n)
+	copy(out, b)
+	return out
 }
 
 func confinedGo(segs []B) bool { // harness-side mirror used only to build signatures/details
